@@ -129,6 +129,7 @@ def _run(scn, w, res):
     user0, tx, role, aa = None, None, None, 0x3F
     p1 = None
     checked = 0
+    tx_opened_in_rx = False
 
     def probe_rx(addr, expect_pipe0):
         """peer transmits one packet to `addr`; ground truth is the UUT chip's RX FIFO."""
@@ -147,6 +148,9 @@ def _run(scn, w, res):
     for k, op in enumerate(scn["ops"]):
         mark = len(ru.ce_log)
         rmark = len(ru.rx_reconf)
+        user0_before, tx_before = user0, tx
+        if op == "lisT":
+            tx_opened_in_rx = False
         sim.log("call", "U", op)
         if op.startswith("rx0"):
             uut.open_rx_pipe(0, ad[op[3]])
@@ -160,6 +164,10 @@ def _run(scn, w, res):
         elif op.startswith("tx"):
             uut.open_tx_pipe(ad[op[2]])
             tx = ad[op[2]]
+            if role == "rx":
+                # documented: open_tx_pipe() appropriates pipe 0 with the TX address when auto-ack is on for pipe 0 - also on a
+                # radio that is listening; what pipe 0 then holds until the next RX entry is the application's own doing
+                tx_opened_in_rx = True
         elif op.startswith("aa"):
             aa = int(op[2:], 16)
             uut.auto_ack = aa
@@ -183,19 +191,23 @@ def _run(scn, w, res):
         if role == "rx" and not ru.ce:
             res.add("ce", {"kind": "ce_low_in_rx", "op": op}, "CE is low after %s although the radio is in RX mode" % op)
         # ---- rx_pipe0: on entering RX mode
-        if op == "lisT":
-            # ... from the first instant of RX mode: was pipe 0 still re-addressed / closed after the receiver had become active?
+        if op == "lisT" or (role == "rx" and not tx_opened_in_rx):
+            # ... from the first instant of RX mode - and for as long as the radio stays in RX mode, whatever call is made there
+            # (open_rx_pipe(0, ...) on a listening radio included): was pipe 0 re-addressed / closed *after* the active receiver had
+            # been listening with it on the TX address?
             for (t_, what, old, new, active_ns, was_en) in ru.rx_reconf[rmark:]:
                 if not was_en:
                     continue
                 old_addr = bytes(ru.a[0x0A]) if what == "enable" else old
-                on_tx = tx is not None and old_addr[: min(aw, len(tx))] == tx[: min(aw, len(tx))] and (user0 is None or user0[:aw] != tx[:aw])
+                on_tx = (tx_before is not None and old_addr[: min(aw, len(tx_before))] == tx_before[: min(aw, len(tx_before))]
+                         and (user0 is None or user0[:aw] != tx_before[:aw]) and (user0_before is None or user0_before[:aw] != tx_before[:aw]))
                 sim.count("rx_entry_transient_seen")
                 if on_tx:
-                    res.add("rx_pipe0", {"kind": "listened_on_tx_address_at_rx_entry", "how": what},
-                            "listen=True: the receiver had been active for %d us with pipe 0 enabled on the TX address %s before pipe 0 was %s (one SPI transaction costs %d us here)"
-                            % (active_ns // 1000, old_addr[:aw].hex(), "closed" if what == "enable" else "set to %s" % bytes(new)[:aw].hex(), scn.get("spi_us", 30)))
+                    res.add("rx_pipe0", {"kind": "listened_on_tx_address_at_rx_entry" if op == "lisT" else "listened_on_tx_address_in_rx_mode", "how": what},
+                            "%s: the receiver had been active for %d us with pipe 0 enabled on the TX address %s before pipe 0 was %s (one SPI transaction costs %d us here)"
+                            % (op, active_ns // 1000, old_addr[:aw].hex(), "closed" if what == "enable" else "set to %s" % bytes(new)[:aw].hex(), scn.get("spi_us", 30)))
                     break
+        if op == "lisT":
             checked += 1
             en0 = bool(ru.r[2] & 1)
             if user0 is None:
